@@ -52,6 +52,13 @@ var pieces = []string{
 	"`c'`",      // 14 a quote character inside a quoted identifier
 	"'\"?'",     // 15 ? after the other quote character inside a string
 	"'a\\\\'",   // 16 a string ending in an escaped backslash (added after seeded change c14-1 was missed)
+	// multi-byte UTF-8 characters in every context (added after seeded change c14-3 was missed):
+	// everything the proxy reports and cuts is in BYTES, a character-indexed walk goes wrong
+	// after the first of these
+	"'\u00e9'",         // 17 a 2-byte character inside a string
+	"`\u20ac`",         // 18 a 3-byte character inside a quoted identifier
+	"/* \U0001F600 */", // 19 a 4-byte character inside a comment
+	"\u00e9",           // 20 a 2-byte character in plain text (a bare identifier)
 }
 
 var skeletons = [][2]string{
@@ -245,6 +252,7 @@ func runCase(r *ev.Run, c tcase) {
 	s := <-sessions
 	resp := s.Cmd(mysql.ComStmtPrepare, []byte(sql))
 	id, count, got, isStmt := server.VerifStmtOf(resp)
+	items := server.VerifStmtItems(resp)
 	if isStmt {
 		var b [4]byte
 		b[0], b[1], b[2], b[3] = byte(id), byte(id>>8), byte(id>>16), byte(id>>24)
@@ -263,6 +271,25 @@ func runCase(r *ev.Run, c tcase) {
 		r.Violation(ev.Witness{Summary: fmt.Sprintf("%q: paramCount %d but %d offsets %v", sql, count, len(got), got),
 			Features: map[string]string{"first_kind": "count_offsets_mismatch", "first_context": "none", "cause": "none"}, Case: c})
 		return
+	}
+	// the pieces COM_STMT_EXECUTE reassembles the text from: concatenated they must be the
+	// statement, byte for byte, and the "?" pieces must sit exactly at the reported offsets
+	{
+		var sb strings.Builder
+		var at []int
+		for _, it := range items {
+			if it == "?" {
+				at = append(at, sb.Len())
+			}
+			sb.WriteString(it)
+		}
+		if sb.String() != sql || !intsEq(at, got) {
+			r.Violation(ev.Witness{
+				Summary: fmt.Sprintf("prepare %q: the statement is cut into %q (markers at bytes %v), reported offsets %v; reassembled text %q",
+					sql, items, at, got, sb.String()),
+				Features: map[string]string{"first_kind": "pieces_do_not_reassemble", "first_context": "none", "cause": "none"}, Case: c})
+			return
+		}
 	}
 	if len(want) > 0 {
 		// non-trivial: a statement with real parameters AND at least one '?' that is not one
@@ -338,9 +365,11 @@ func main() {
 
 	// universe = blocks (length, skeleton x joiner combo), shortest first. Quick: every combo
 	// up to length 4; thorough: every combo up to length 5 and the first combo at length 6.
-	fullLen, extraLen := 4, 4
+	// (after the alphabet grew to 21 pieces: quick = every combo up to length 3 and the two
+	// joiners of the first skeleton at length 4; thorough = every combo up to length 5)
+	fullLen, extraLen, extraCombos := 3, 4, 2
 	if r.Thorough() {
-		fullLen, extraLen = 5, 6
+		fullLen, extraLen, extraCombos = 5, 5, 0
 	}
 	a := len(pieces)
 	combos := len(skeletons) * len(joiners)
@@ -349,7 +378,7 @@ func main() {
 	universe := 0
 	for l, n := 1, a; l <= extraLen; l, n = l+1, n*a {
 		for cb := 0; cb < combos; cb++ {
-			if l > fullLen && cb > 0 {
+			if l > fullLen && cb >= extraCombos {
 				continue
 			}
 			blocks = append(blocks, block{l, cb, n})
@@ -359,7 +388,7 @@ func main() {
 	r.Set("universe", universe)
 	bound := fmt.Sprintf("alphabet of %d pieces; every sequence of length 1..%d in %d skeleton x joiner combinations", a, fullLen, combos)
 	if extraLen > fullLen {
-		bound += fmt.Sprintf(", and of length %d..%d in the first combination", fullLen+1, extraLen)
+		bound += fmt.Sprintf(", and of length %d..%d in the first %d combination(s)", fullLen+1, extraLen, extraCombos)
 	}
 	r.Set("bound", bound)
 
@@ -393,7 +422,7 @@ func main() {
 	// escape-related sub-alphabet only, so that two literals ending in an escaped backslash can
 	// enclose a parameter ("'a\\\\' , ? , 'a\\\\'" needs 5 pieces)
 	sub := []int{0, 2, 1, 16, 11, 10}
-	subMin, subMax := fullLen+1, fullLen+2
+	subMin, subMax := extraLen+1, extraLen+2
 	subUniverse := 0
 	for l := subMin; l <= subMax; l++ {
 		n := 1
@@ -432,7 +461,7 @@ func main() {
 	if nPrepared == 0 || r.DistinctN("nontrivial") < 2 {
 		ev.Fatalf("vacuous run: prepared=%d nontrivial=%d", nPrepared, r.DistinctN("nontrivial"))
 	}
-	r.Set("rule", "every sequence of 1..N lexical pieces (parameter, strings with plain/escaped/doubled quotes, quoted identifiers, --/#/C comments, each containing '?'; separators) in 2 SELECT skeletons, joined with ' ' and ''. Judged: texts Gaea's parser accepts and the proxy prepares. distinct_nontrivial = distinct prepared texts that have at least one real parameter marker and at least one '?' that is not one")
+	r.Set("rule", "every sequence of 1..N lexical pieces (parameter, strings with plain/escaped/doubled quotes, quoted identifiers, --/#/C comments, each containing '?'; separators; 2-, 3- and 4-byte UTF-8 characters in a string, a quoted identifier, a comment and in plain text) in 2 SELECT skeletons, joined with ' ' and ''. Judged: texts Gaea's parser accepts and the proxy prepares. distinct_nontrivial = distinct prepared texts that have at least one real parameter marker and at least one '?' that is not one")
 	r.Assume("Gaea's parser (parser.ParseOneStmt, the one the proxy plans with) defines the SQL grammar; cross-checked on every accepted text against the independent lexer ref/mylex (any disagreement is an engine error)")
 	r.Assume("default sql_mode (backslash escapes on, ANSI_QUOTES off) — COM_STMT_PREPARE handling does not look at sql_mode")
 	r.Assume("a prepare the proxy refuses (error response) reports no parameters and is not judged; counted as prepare_refused")
